@@ -124,6 +124,20 @@ Record backend := mkB {
   b_answer : meth -> arg -> resp
 }.
 
+(* mopidy.backend.Backend (src/mopidy/backend.py): a backend is written by setting the provider
+   attributes; the capability methods every backend inherits are computed from which of them
+   are set.  pv_library: None = no library provider, Some None = a library without a root
+   directory, Some (Some id) = a browsable library. *)
+Record providers := mkPv { pv_library : option (option Z); pv_playback : bool; pv_playlists : bool }.
+Definition has_library (pv : providers) : bool := match pv_library pv with Some _ => true | None => false end.
+Definition has_library_browse (pv : providers) : bool :=
+  match pv_library pv with Some (Some _) => true | _ => false end.
+Definition has_playback (pv : providers) : bool := pv_playback pv.
+Definition has_playlists (pv : providers) : bool := pv_playlists pv.
+
+Definition backend_of (schemes : list scheme) (pv : providers) (answer : meth -> arg -> resp) : backend :=
+  mkB schemes true (has_library pv) (has_library_browse pv) (has_playback pv) (has_playlists pv) answer.
+
 Definition mixer := meth -> arg -> resp.
 
 (* results of core calls *)
